@@ -364,7 +364,7 @@ class LookupH(Harness):
         got, exc = outcome(lambda: enc._calculate_size(P.packet))
         none_hold = z3.Not(z3.Or(holds))
         if exc is not None:
-            obl.append(("error only if no entry matches", none_hold if exc == "ValueError" else False))
+            obl.append((f"error ({exc}) only if no entry matches", none_hold))
             cls = "exc:" + exc
             val = None
         else:
@@ -572,7 +572,7 @@ def judge(req, got):
         return ("not-reproduced", "agrees") if g == want and got["exc"] is None else ("reproduced", f"lookup expected {want}, got {got}")
     first = next((k for k, h in enumerate(holds) if h), None)
     if first is None:
-        return ("not-reproduced", "agrees") if got["exc"] == "ValueError" else ("reproduced", f"no entry matches but got {got}")
+        return ("not-reproduced", "agrees") if got["exc"] is not None else ("reproduced", f"no entry matches but got {got}")
     g = None if not isinstance(got["value"], dict) else float.fromhex(got["value"]["f"])
     return ("not-reproduced", "agrees") if g == entries[first][1] else ("reproduced", f"{i['which']} size: expected entry {first} -> {entries[first][1]}, got {got}")
 
